@@ -147,6 +147,21 @@ EXTRA7 = {
 }
 for _k, _v in EXTRA4.items():
     CLAIMS[_k] = (CLAIMS[_k][0], CLAIMS[_k][1] + _v, CLAIMS[_k][2])
+EXTRA8 = {
+ "C03": " No loop-carried offset into the stacks is advanced only after its loop.",
+ "C04": " compute_time is defined for an empty computation selection (no positional row read).",
+ "C08": " The per-stream previous-kernel record advances with every span; host categories cpu_op / cuda_runtime / cuda_driver get nodes (the query is evaluated).",
+ "C09": " critical_path consults only the graph's weight attribute.",
+ "C11": " No filter __call__ stores on self.",
+ "C13": " Whole-graph walks start at the per-thread roots only.",
+ "C14": " Copy types decided on representative names; the conversion leaves its series argument untouched.",
+ "C17": " shorten_name decided on representative names.",
+ "C19": " The breakdown decodes names on every call.",
+ "C20": " The overlay is decided on the file written for a small abstract graph.",
+ "C06": " Facade binding decided by evaluating the wrapper.",
+}
+for _k, _v in EXTRA8.items():
+    CLAIMS[_k] = (CLAIMS[_k][0], CLAIMS[_k][1] + _v, CLAIMS[_k][2])
 for _k, _v in EXTRA7.items():
     CLAIMS[_k] = (CLAIMS[_k][0], CLAIMS[_k][1] + _v, CLAIMS[_k][2])
 
